@@ -24,6 +24,10 @@ class FixMessageReader(common.Reader):
             if end == -1:
                 return empty_response
             body_length = int(self._buffer[start+1:end])
+            if body_length < 0:
+                # a length: with a negative one the frame would be cut relative to the END of whatever has
+                # arrived so far, i.e. differently for every segmentation of the same bytes
+                raise ValueError(f'negative BodyLength: {body_length}')
             msg_len = calc_msg_len(end+1, body_length)
             if len(self._buffer) < msg_len:
                 return empty_response
